@@ -168,6 +168,16 @@ theorem C22_reject_tree :
     (Gen.sessionFacts.nilRepaired = true ∧ Gen.sessionFacts.rsaAssertChecked = true) :=
   C22_reject_iff_repaired Gen.sessionFacts
 
+/-- C22, FULL STRENGTH, for the working tree (both repairs are in the source the
+    generator read): in a signed mode, a server whose session signature does not
+    verify gets an error, the client ends Closed, never reports Connected,
+    never sends ActivateSession. -/
+theorem C22_reject (m : Mode) (s : Server) (hm : m ≠ .none) (h : ¬ sigValid s) :
+    (connect Gen.sessionFacts m s).outcome = .err ∧ (connect Gen.sessionFacts m s).final = .closed ∧
+    ConnState.connected ∉ (connect Gen.sessionFacts m s).states ∧
+    (connect Gen.sessionFacts m s).activateSent = false :=
+  C22_reject_repaired Gen.sessionFacts (by decide) (by decide) m s hm h
+
 /-- no panic at all once both repairs are in (every mode, every behaviour) -/
 theorem C22_nopanic_repaired (f : CodeFacts) (hf : f.nilRepaired = true) (hr : f.rsaAssertChecked = true)
     (m : Mode) (s : Server) : (connect f m s).outcome ≠ .panic := by
@@ -181,6 +191,10 @@ theorem C22_nopanic_repaired (f : CodeFacts) (hf : f.nilRepaired = true) (hr : f
   simp only at hr; subst hr
   cases a <;> cases c <;> simp [CodeFacts.nilRepaired] at hf <;>
     cases v <;> simp at hp <;> cases cr <;> cases ac <;> cases ns <;> decide
+
+/-- … and `Connect` does not panic for any server behaviour in any mode -/
+theorem C22_nopanic (m : Mode) (s : Server) : (connect Gen.sessionFacts m s).outcome ≠ .panic :=
+  C22_nopanic_repaired Gen.sessionFacts (by decide) (by decide) m s
 
 /-- non-vacuity: there are behaviours with a valid and with an invalid signature,
     and the as-is model accepts the former -/
